@@ -67,7 +67,7 @@ Qed.
 
 (* ---------- who holds what ---------- *)
 Definition holder (p : pc) : option (N * N) :=
-  match p with PAcq i r _ | PIn i r _ | POut i r => Some (i, r) | _ => None end.
+  match p with PAcq i r _ _ | PIn i r _ _ | POut i r _ => Some (i, r) | _ => None end.
 Definition holds (r : N) (p : pc) : bool :=
   match holder p with Some (_, r') => N.eqb r' r | None => false end.
 
@@ -80,17 +80,29 @@ Proof.
   - split; [discriminate|intros [j Hj]; discriminate].
 Qed.
 
-Lemma holds_idle : forall r, holds r PIdle = false.
+Lemma holds_none : forall r p, holder p = None -> holds r p = false.
+Proof. intros r p H. unfold holds. rewrite H. reflexivity. Qed.
+Lemma holds_acq : forall r i r' w b, holds r (PAcq i r' w b) = N.eqb r' r.
 Proof. reflexivity. Qed.
-Lemma holds_acq : forall r i r' w, holds r (PAcq i r' w) = N.eqb r' r.
-Proof. reflexivity. Qed.
-Lemma holds_out : forall r i r', holds r (POut i r') = N.eqb r' r.
+Lemma holds_out : forall r i r' b, holds r (POut i r' b) = N.eqb r' r.
 Proof. reflexivity. Qed.
 
 Lemma upd_same : forall {A} (f : N -> A) k v, upd f k v k = v.
 Proof. intros. unfold upd. rewrite N.eqb_refl. reflexivity. Qed.
 Lemma upd_other : forall {A} (f : N -> A) k v x, x <> k -> upd f k v x = f x.
 Proof. intros. unfold upd. destruct (N.eqb_spec x k); [congruence|reflexivity]. Qed.
+
+(* a goroutine that holds no lock object and is not in the old intermediate release state *)
+Definition quiet (p : pc) : Prop := holder p = None /\ forall i r b, p <> PDec i r b.
+
+Lemma quiet_idle : quiet PIdle.
+Proof. split; [reflexivity|discriminate]. Qed.
+Lemma quiet_next : forall b, quiet (PNext b).
+Proof. split; [reflexivity|discriminate]. Qed.
+Lemma quiet_after_release : forall b, quiet (after_release b).
+Proof. intros [k [|x l]]; [apply quiet_idle|apply quiet_next]. Qed.
+Lemma quiet_not_in : forall p i r w b, quiet p -> p <> PIn i r w b.
+Proof. intros p i r w b [H _] ->. discriminate. Qed.
 
 (* ---------- the invariant of the fixed protocol ---------- *)
 Record inv (s : state) : Prop := mkInv {
@@ -101,9 +113,9 @@ Record inv (s : state) : Prop := mkInv {
   i_pool_free : forall r i, In r (s_pool s) -> s_table s i <> Some r;
   i_next_tab : forall i r, s_table s i = Some r -> (r < s_next s)%N;
   i_next_pool : forall r, In r (s_pool s) -> (r < s_next s)%N;
-  i_nodec : forall t i r, nth_error (s_thr s) t <> Some (PDec i r);
-  i_rw : forall t1 t2 i1 i2 r w1 w2, t1 <> t2 ->
-           nth_error (s_thr s) t1 = Some (PIn i1 r w1) -> nth_error (s_thr s) t2 = Some (PIn i2 r w2) ->
+  i_nodec : forall t i r b, nth_error (s_thr s) t <> Some (PDec i r b);
+  i_rw : forall t1 t2 i1 i2 r w1 w2 b1 b2, t1 <> t2 ->
+           nth_error (s_thr s) t1 = Some (PIn i1 r w1 b1) -> nth_error (s_thr s) t2 = Some (PIn i2 r w2 b2) ->
            w1 = false /\ w2 = false
 }.
 
@@ -116,7 +128,7 @@ Proof.
   all: try (intros; match goal with H : nth_error (repeat PIdle _) _ = Some _ |- _ => apply Hall in H; subst; discriminate end).
   all: try (intros; match goal with H : In _ [] |- _ => destruct H end).
   all: try constructor.
-  intros t i r H. apply Hall in H. discriminate.
+  intros t i r b H. apply Hall in H. discriminate.
 Qed.
 
 (* nobody holds an object that is not in the table *)
@@ -127,14 +139,35 @@ Proof.
   exfalso. apply (Hfree i). eapply i_hold; eauto.
 Qed.
 
+(* the per-thread parts of the invariant when goroutine t changes from p0 to x and x is not inside *)
+Lemma thr_nodec : forall s t p0 x, inv s -> nth_error (s_thr s) t = Some p0 -> (forall i r b, x <> PDec i r b) ->
+  forall t' i r b, nth_error (set_nth t x (s_thr s)) t' <> Some (PDec i r b).
+Proof.
+  intros s t p0 x Hi Ht Hx t' i r b Hn. destruct (nth_set_cases _ _ _ _ _ _ Ht Hn) as [[-> Hbad]|[Hne Hold]].
+  - eapply Hx; eauto.
+  - eapply (i_nodec s Hi); eauto.
+Qed.
+
+Lemma thr_rw : forall s t p0 x, inv s -> nth_error (s_thr s) t = Some p0 -> (forall i r w b, x <> PIn i r w b) ->
+  forall t1 t2 i1 i2 r w1 w2 b1 b2, t1 <> t2 ->
+    nth_error (set_nth t x (s_thr s)) t1 = Some (PIn i1 r w1 b1) ->
+    nth_error (set_nth t x (s_thr s)) t2 = Some (PIn i2 r w2 b2) -> w1 = false /\ w2 = false.
+Proof.
+  intros s t p0 x Hi Ht Hx t1 t2 i1 i2 r w1 w2 b1 b2 Hne H1 H2.
+  destruct (nth_set_cases _ _ _ _ _ _ Ht H1) as [[-> E1]|[Hn1 O1]]; [exfalso; eapply Hx; eauto|].
+  destruct (nth_set_cases _ _ _ _ _ _ Ht H2) as [[-> E2]|[Hn2 O2]]; [exfalso; eapply Hx; eauto|].
+  apply (i_rw s Hi t1 t2 i1 i2 r w1 w2 b1 b2 Hne O1 O2).
+Qed.
+
 (* a goroutine moves on with the same object: Acq -> In -> Out *)
 Lemma inv_same_holder : forall s t p0 x i r, inv s -> nth_error (s_thr s) t = Some p0 ->
-  holder p0 = Some (i, r) -> holder x = Some (i, r) -> (forall j q, x <> PDec j q) ->
-  (forall t2 i2 w w2, x = PIn i r w -> t2 <> t -> nth_error (s_thr s) t2 = Some (PIn i2 r w2) -> w = false /\ w2 = false) ->
-  (forall i' r' w', x = PIn i' r' w' -> i' = i /\ r' = r) ->
+  holder p0 = Some (i, r) -> holder x = Some (i, r) -> (forall j q b, x <> PDec j q b) ->
+  (forall t2 i2 w w2 b b2, x = PIn i r w b -> t2 <> t -> nth_error (s_thr s) t2 = Some (PIn i2 r w2 b2) ->
+     w = false /\ w2 = false) ->
+  (forall i' r' w' b', x = PIn i' r' w' b' -> i' = i /\ r' = r) ->
   inv (mkS (s_table s) (s_pool s) (s_next s) (s_cnt s) (set_nth t x (s_thr s))).
 Proof.
-  intros s t p0 x i r Hi Ht Hp0 Hx Hnd Hrw Hxin. destruct Hi.
+  intros s t p0 x i r Hi Ht Hp0 Hx Hnd Hrw Hxin. pose proof Hi as Hi'. destruct Hi.
   constructor; cbn [s_thr s_table s_pool s_cnt s_next]; eauto.
   - intros t' p i' r' Hn Hh. destruct (nth_set_cases _ _ _ _ _ _ Ht Hn) as [[-> ->]|[Hne Hold]].
     + rewrite Hx in Hh. inversion Hh; subst. eapply i_hold0; eauto.
@@ -142,195 +175,210 @@ Proof.
   - intros i' r' Htab. rewrite (i_cnt0 i' r' Htab). f_equal.
     pose proof (count_set (holds r') (s_thr s) t x p0 Ht) as Hc.
     unfold holds in *. rewrite Hp0, Hx in Hc. lia.
-  - intros t' i' r' Hn. destruct (nth_set_cases _ _ _ _ _ _ Ht Hn) as [[-> Hbad]|[Hne Hold]].
-    + eapply Hnd; eauto.
-    + eapply i_nodec0; eauto.
-  - intros t1 t2 i1 i2 r' w1 w2 Hne H1 H2.
+  - eapply thr_nodec; eauto.
+  - intros t1 t2 i1 i2 r' w1 w2 b1 b2 Hne H1 H2.
     destruct (nth_set_cases _ _ _ _ _ _ Ht H1) as [[-> E1]|[Hn1 O1]];
       destruct (nth_set_cases _ _ _ _ _ _ Ht H2) as [[-> E2]|[Hn2 O2]].
     + congruence.
-    + destruct (Hxin _ _ _ (eq_sym E1)) as [-> ->]. apply (Hrw t2 i2 w1 w2 (eq_sym E1) Hn2 O2).
-    + destruct (Hxin _ _ _ (eq_sym E2)) as [-> ->].
-      destruct (Hrw t1 i1 w2 w1 (eq_sym E2) Hn1 O1) as [A B]. split; assumption.
-    + apply (i_rw0 t1 t2 i1 i2 r' w1 w2 Hne O1 O2).
+    + destruct (Hxin _ _ _ _ (eq_sym E1)) as [-> ->]. apply (Hrw t2 i2 w1 w2 b1 b2 (eq_sym E1) Hn2 O2).
+    + destruct (Hxin _ _ _ _ (eq_sym E2)) as [-> ->].
+      destruct (Hrw t1 i1 w2 w1 b2 b1 (eq_sym E2) Hn1 O1) as [A B]. split; assumption.
+    + apply (i_rw0 t1 t2 i1 i2 r' w1 w2 b1 b2 Hne O1 O2).
 Qed.
 
-Lemma inv_step : forall s m, inv s -> inv (step true true s m).
+(* a goroutine that holds nothing changes into another state in which it holds nothing *)
+Lemma inv_quiet : forall s t p0 x, inv s -> nth_error (s_thr s) t = Some p0 -> quiet p0 -> quiet x ->
+  inv (mkS (s_table s) (s_pool s) (s_next s) (s_cnt s) (set_nth t x (s_thr s))).
+Proof.
+  intros s t p0 x Hi Ht [Hp0 _] Hq. pose proof Hi as Hi'. destruct Hi.
+  constructor; cbn [s_thr s_table s_pool s_cnt s_next]; eauto.
+  - intros t' p i' r' Hn Hh. destruct (nth_set_cases _ _ _ _ _ _ Ht Hn) as [[-> ->]|[Hne Hold]].
+    + destruct Hq as [Hq _]. congruence.
+    + eapply i_hold0; eauto.
+  - intros i' r' Htab. rewrite (i_cnt0 i' r' Htab). f_equal.
+    pose proof (count_set (holds r') (s_thr s) t x p0 Ht) as Hc.
+    rewrite (holds_none r' p0 Hp0), (holds_none r' x (proj1 Hq)) in Hc. lia.
+  - eapply thr_nodec; eauto. apply Hq.
+  - eapply thr_rw; eauto. intros. apply quiet_not_in. exact Hq.
+Qed.
+
+(* acquireSyncRef by a goroutine that holds nothing *)
+Lemma inv_acquire : forall s t p0 i w b pick, inv s -> nth_error (s_thr s) t = Some p0 -> quiet p0 ->
+  inv (acquire true s t i w b pick).
+Proof.
+  intros s t p0 i w b pick Hi Ht [Hp0 Hp0d]. unfold acquire.
+  assert (Hcs : forall r' r, (count (holds r') (set_nth t (PAcq i r w b) (s_thr s))
+                              = count (holds r') (s_thr s) + (if N.eqb r r' then 1 else 0))%nat).
+  { intros r' r. pose proof (count_set (holds r') (s_thr s) t (PAcq i r w b) p0 Ht) as Hc.
+    rewrite (holds_none r' p0 Hp0), holds_acq in Hc. lia. }
+  destruct (s_table s i) as [r|] eqn:Htab.
+  - (* entry found: counter + 1 *)
+    pose proof Hi as Hi'. destruct Hi. constructor; cbn [s_thr s_table s_pool s_cnt s_next]; eauto.
+    + intros t' p i' r' Hn Hh. destruct (nth_set_cases _ _ _ _ _ _ Ht Hn) as [[-> ->]|[Hne Hold]].
+      * cbn in Hh. inversion Hh; subst. exact Htab.
+      * eapply i_hold0; eauto.
+    + intros i' r' Htab'. rewrite Hcs. destruct (N.eqb_spec r' r) as [->|Hne].
+      * rewrite upd_same. rewrite (i_cnt0 _ _ Htab'). rewrite N.eqb_refl. lia.
+      * rewrite upd_other by exact Hne. rewrite (i_cnt0 _ _ Htab').
+        destruct (N.eqb_spec r r'); [congruence|]. f_equal. lia.
+    + eapply thr_nodec; eauto. discriminate.
+    + eapply thr_rw; eauto. discriminate.
+  - (* no entry: an object from the pool, or a new one; in both cases an object nobody holds *)
+    assert (Hnew : forall r pool' nxt,
+               (forall j, s_table s j <> Some r) -> NoDup pool' -> ~ In r pool' ->
+               (forall x, In x pool' -> In x (s_pool s)) -> (r < nxt)%N -> (s_next s <= nxt)%N ->
+               inv (mkS (upd (s_table s) i (Some r)) pool' nxt (upd (s_cnt s) r 1%Z)
+                        (set_nth t (PAcq i r w b) (s_thr s)))).
+    { intros r pool' nxt Hfree Hnd Hnin Hsub Hlt Hle.
+      pose proof (free_not_held s r Hi Hfree) as Hzero. pose proof Hi as Hi'. destruct Hi.
+      constructor; cbn [s_thr s_table s_pool s_cnt s_next]; eauto.
+      - intros t' p i' r' Hn Hh. destruct (nth_set_cases _ _ _ _ _ _ Ht Hn) as [[-> ->]|[Hne Hold]].
+        + cbn in Hh. inversion Hh; subst. apply upd_same.
+        + pose proof (i_hold0 _ _ _ _ Hold Hh) as Hold'.
+          rewrite upd_other; [exact Hold'|]. intros ->. congruence.
+      - intros i' j' r' H1 H2. unfold upd in H1, H2.
+        destruct (N.eqb_spec i' i) as [->|N1]; destruct (N.eqb_spec j' i) as [->|N2]; auto.
+        + inversion H1; subst. exfalso. eapply Hfree; eauto.
+        + inversion H2; subst. exfalso. eapply Hfree; eauto.
+        + eapply i_inj0; eauto.
+      - intros i' r' Htab'. unfold upd in Htab'. rewrite Hcs.
+        destruct (N.eqb_spec i' i) as [->|N1].
+        + inversion Htab'; subst r'. rewrite upd_same. rewrite N.eqb_refl. lia.
+        + assert (r' <> r) by (intros ->; eapply Hfree; eauto).
+          rewrite upd_other by assumption. rewrite (i_cnt0 _ _ Htab').
+          destruct (N.eqb_spec r r'); [congruence|]. f_equal. lia.
+      - intros x i' Hin Htab'. unfold upd in Htab'. destruct (N.eqb_spec i' i) as [->|N1].
+        + inversion Htab'; subst. contradiction.
+        + eapply i_pool_free0; eauto.
+      - intros i' r' Htab'. unfold upd in Htab'. destruct (N.eqb_spec i' i) as [->|N1].
+        + inversion Htab'; subst. exact Hlt.
+        + pose proof (i_next_tab0 _ _ Htab'). lia.
+      - intros x Hin. pose proof (i_next_pool0 x (Hsub x Hin)). lia.
+      - eapply thr_nodec; eauto. discriminate.
+      - eapply thr_rw; eauto. discriminate. }
+    destruct (take pick (s_pool s)) as [[r pool']|] eqn:Etake.
+    + destruct (take_spec _ _ _ _ Etake) as (Hin & Hsub & Hnd). destruct (Hnd (i_pool_nodup s Hi)) as [Hnd' Hnin].
+      apply Hnew; auto.
+      * intros j. apply (i_pool_free s Hi). exact Hin.
+      * apply (i_next_pool s Hi). exact Hin.
+      * lia.
+    + apply Hnew; auto.
+      * intros j Hc. pose proof (i_next_tab s Hi _ _ Hc). lia.
+      * apply (i_pool_nodup s Hi).
+      * intros Hin. pose proof (i_next_pool s Hi _ Hin). lia.
+      * lia.
+      * lia.
+Qed.
+
+Lemma inv_step : forall s m, inv s -> inv (step true true true s m).
 Proof.
   intros s m Hi. unfold step.
   destruct (nth_error (s_thr s) (m_thr m)) as [p0|] eqn:Ht; [|exact Hi].
-  destruct p0 as [|i r w|i r w|i r|i r].
-  - (* acquire *)
-    destruct (s_table s (m_id m)) as [r|] eqn:Htab.
-    + (* entry found: counter + 1 *)
-      destruct Hi. constructor; cbn [s_thr s_table s_pool s_cnt s_next]; eauto.
-      * intros t' p i' r' Hn Hh. destruct (nth_set_cases _ _ _ _ _ _ Ht Hn) as [[-> ->]|[Hne Hold]].
-        -- cbn in Hh. inversion Hh; subst. exact Htab.
-        -- eapply i_hold0; eauto.
-      * intros i' r' Htab'.
-        pose proof (count_set (holds r') (s_thr s) (m_thr m) (PAcq (m_id m) r (m_write m)) PIdle Ht) as Hc.
-        rewrite holds_idle, holds_acq in Hc.
-        destruct (N.eqb_spec r' r) as [->|Hne].
-        -- rewrite upd_same. rewrite (i_cnt0 _ _ Htab'). rewrite N.eqb_refl in Hc. lia.
-        -- rewrite upd_other by exact Hne. rewrite (i_cnt0 _ _ Htab').
-           destruct (N.eqb_spec r r'); [congruence|]. f_equal. lia.
-      * intros t' i' r' Hn. destruct (nth_set_cases _ _ _ _ _ _ Ht Hn) as [[-> Hbad]|[Hne Hold]]; [discriminate|].
-        eapply i_nodec0; eauto.
-      * intros t1 t2 i1 i2 r' w1 w2 Hne H1 H2.
-        destruct (nth_set_cases _ _ _ _ _ _ Ht H1) as [[-> E1]|[Hn1 O1]]; [discriminate|].
-        destruct (nth_set_cases _ _ _ _ _ _ Ht H2) as [[-> E2]|[Hn2 O2]]; [discriminate|].
-        apply (i_rw0 t1 t2 i1 i2 r' w1 w2 Hne O1 O2).
-    + (* no entry: an object from the pool, or a new one; in both cases an object nobody holds *)
-      assert (Hnew : forall r pool' nxt,
-                 (forall i, s_table s i <> Some r) -> NoDup pool' -> ~ In r pool' ->
-                 (forall x, In x pool' -> In x (s_pool s)) -> (r < nxt)%N -> (s_next s <= nxt)%N ->
-                 inv (mkS (upd (s_table s) (m_id m) (Some r)) pool' nxt (upd (s_cnt s) r 1%Z)
-                          (set_nth (m_thr m) (PAcq (m_id m) r (m_write m)) (s_thr s)))).
-      { intros r pool' nxt Hfree Hnd Hnin Hsub Hlt Hle.
-        pose proof (free_not_held s r Hi Hfree) as Hzero. destruct Hi.
-        constructor; cbn [s_thr s_table s_pool s_cnt s_next]; eauto.
-        - intros t' p i' r' Hn Hh. destruct (nth_set_cases _ _ _ _ _ _ Ht Hn) as [[-> ->]|[Hne Hold]].
-          + cbn in Hh. inversion Hh; subst. apply upd_same.
-          + pose proof (i_hold0 _ _ _ _ Hold Hh) as Hold'.
-            rewrite upd_other; [exact Hold'|]. intros ->. congruence.
-        - intros i' j' r' H1 H2. unfold upd in H1, H2.
-          destruct (N.eqb_spec i' (m_id m)) as [->|N1]; destruct (N.eqb_spec j' (m_id m)) as [->|N2]; auto.
-          + inversion H1; subst. exfalso. eapply Hfree; eauto.
-          + inversion H2; subst. exfalso. eapply Hfree; eauto.
-          + eapply i_inj0; eauto.
-        - intros i' r' Htab'. unfold upd in Htab'.
-          pose proof (count_set (holds r') (s_thr s) (m_thr m) (PAcq (m_id m) r (m_write m)) PIdle Ht) as Hc.
-          rewrite holds_idle, holds_acq in Hc.
-          destruct (N.eqb_spec i' (m_id m)) as [->|N1].
-          + inversion Htab'; subst r'. rewrite upd_same. rewrite N.eqb_refl in Hc. lia.
-          + assert (r' <> r) by (intros ->; eapply Hfree; eauto).
-            rewrite upd_other by assumption. rewrite (i_cnt0 _ _ Htab').
-            destruct (N.eqb_spec r r'); [congruence|]. f_equal. lia.
-        - intros x i' Hin Htab'. unfold upd in Htab'. destruct (N.eqb_spec i' (m_id m)) as [->|N1].
-          + inversion Htab'; subst. contradiction.
-          + eapply i_pool_free0; eauto.
-        - intros i' r' Htab'. unfold upd in Htab'. destruct (N.eqb_spec i' (m_id m)) as [->|N1].
-          + inversion Htab'; subst. exact Hlt.
-          + pose proof (i_next_tab0 _ _ Htab'). lia.
-        - intros x Hin. pose proof (i_next_pool0 x (Hsub x Hin)). lia.
-        - intros t' i' r' Hn. destruct (nth_set_cases _ _ _ _ _ _ Ht Hn) as [[-> Hbad]|[Hne Hold]]; [discriminate|].
-          eapply i_nodec0; eauto.
-        - intros t1 t2 i1 i2 r' w1 w2 Hne H1 H2.
-          destruct (nth_set_cases _ _ _ _ _ _ Ht H1) as [[-> E1]|[Hn1 O1]]; [discriminate|].
-          destruct (nth_set_cases _ _ _ _ _ _ Ht H2) as [[-> E2]|[Hn2 O2]]; [discriminate|].
-          apply (i_rw0 t1 t2 i1 i2 r' w1 w2 Hne O1 O2). }
-      destruct (take (m_pick m) (s_pool s)) as [[r pool']|] eqn:Etake.
-      * destruct (take_spec _ _ _ _ Etake) as (Hin & Hsub & Hnd). destruct (Hnd (i_pool_nodup s Hi)) as [Hnd' Hnin].
-        apply Hnew; auto.
-        -- intros i. apply (i_pool_free s Hi). exact Hin.
-        -- apply (i_next_pool s Hi). exact Hin.
-        -- lia.
-      * apply Hnew; auto.
-        -- intros i Hc. pose proof (i_next_tab s Hi _ _ Hc). lia.
-        -- apply (i_pool_nodup s Hi).
-        -- intros Hin. pose proof (i_next_pool s Hi _ Hin). lia.
-        -- lia.
-        -- lia.
+  destruct p0 as [|b|i r w b|i r w b|i r b|i r b].
+  - (* an operation starts *)
+    eapply inv_acquire; eauto. apply quiet_idle.
+  - (* the next ID of a Delete batch *)
+    destruct (snd b) as [|i rest] eqn:Eb.
+    + eapply inv_quiet; eauto; [apply quiet_next|apply quiet_idle].
+    + eapply inv_acquire; eauto. apply quiet_next.
   - (* enter *)
     destruct (can_enter r w (s_thr s)) eqn:Hcan; [|exact Hi].
-    eapply (inv_same_holder s (m_thr m) (PAcq i r w) (PIn i r w) i r); eauto.
+    eapply (inv_same_holder s (m_thr m) (PAcq i r w b) (PIn i r w b) i r); eauto.
     + intros; discriminate.
-    + intros t2 i2 w' w2 E Hne H2. inversion E; subst w'.
+    + intros t2 i2 w' w2 b' b2 E Hne H2. inversion E; subst w'.
       pose proof (forallb_nth _ _ _ _ Hcan H2) as Hal. cbn [allows] in Hal. rewrite N.eqb_refl in Hal. cbn [negb orb] in Hal.
       apply andb_true_iff in Hal. destruct Hal as [A B]. apply negb_true_iff in A. apply negb_true_iff in B. split; assumption.
-    + intros i' r' w' E. inversion E; subst. split; reflexivity.
+    + intros i' r' w' b' E. inversion E; subst. split; reflexivity.
   - (* leave *)
-    eapply (inv_same_holder s (m_thr m) (PIn i r w) (POut i r) i r); eauto.
+    eapply (inv_same_holder s (m_thr m) (PIn i r w b) (POut i r b) i r); eauto.
     + intros; discriminate.
     + intros; discriminate.
     + intros; discriminate.
-  - (* release, one critical section *)
+  - (* release, one critical section, under the ID that was acquired *)
+    pose proof (quiet_after_release b) as Hq. set (x := after_release b) in *.
     pose proof (i_hold s Hi _ _ i r Ht eq_refl) as Htab.
     pose proof (i_cnt s Hi _ _ Htab) as Hcnt.
-    pose proof (count_set (holds r) (s_thr s) (m_thr m) PIdle (POut i r) Ht) as Hc.
-    rewrite holds_idle, holds_out in Hc. rewrite N.eqb_refl in Hc.
+    assert (Hcs : forall r', (count (holds r') (set_nth (m_thr m) x (s_thr s)) + (if N.eqb r r' then 1 else 0)
+                              = count (holds r') (s_thr s))%nat).
+    { intros r'. pose proof (count_set (holds r') (s_thr s) (m_thr m) x (POut i r b) Ht) as Hc.
+      rewrite (holds_none r' x (proj1 Hq)), holds_out in Hc. lia. }
+    pose proof (Hcs r) as Hc. rewrite N.eqb_refl in Hc.
     assert (Hother : forall r', r' <> r ->
-              count (holds r') (set_nth (m_thr m) PIdle (s_thr s)) = count (holds r') (s_thr s)).
-    { intros r' Hne. pose proof (count_set (holds r') (s_thr s) (m_thr m) PIdle (POut i r) Ht) as Hc'.
-      rewrite holds_idle, holds_out in Hc'.
-      destruct (N.eqb_spec r r'); [congruence|]. lia. }
+              count (holds r') (set_nth (m_thr m) x (s_thr s)) = count (holds r') (s_thr s)).
+    { intros r' Hne. pose proof (Hcs r') as Hc'. destruct (N.eqb_spec r r'); [congruence|]. lia. }
     destruct (Z.leb_spec (s_cnt s r - 1) 0) as [Hle|Hgt].
     + (* last user: remove the entry, pool the object *)
-      assert (Hzero : count (holds r) (set_nth (m_thr m) PIdle (s_thr s)) = 0%nat) by lia.
-      destruct Hi. constructor; cbn [s_thr s_table s_pool s_cnt s_next]; eauto.
-      * intros t' p i' r' Hn Hh. destruct (nth_set_cases _ _ _ _ _ _ Ht Hn) as [[-> ->]|[Hne Hold]]; [discriminate|].
-        pose proof (i_hold0 _ _ _ _ Hold Hh) as Hold'.
-        rewrite upd_other; [exact Hold'|]. intros ->. rewrite Htab in Hold'. inversion Hold'; subst r'.
-        pose proof (count_zero_inv _ _ _ _ Hzero Hn) as Hf.
-        assert (holds r p = true) by (apply holds_true; eauto). congruence.
+      assert (Hzero : count (holds r) (set_nth (m_thr m) x (s_thr s)) = 0%nat) by lia.
+      pose proof Hi as Hi'. destruct Hi. constructor; cbn [s_thr s_table s_pool s_cnt s_next]; eauto.
+      * intros t' p i' r' Hn Hh. destruct (nth_set_cases _ _ _ _ _ _ Ht Hn) as [[-> ->]|[Hne Hold]].
+        -- destruct Hq as [Hq _]. congruence.
+        -- pose proof (i_hold0 _ _ _ _ Hold Hh) as Hold'.
+           rewrite upd_other; [exact Hold'|]. intros ->. rewrite Htab in Hold'. inversion Hold'; subst r'.
+           pose proof (count_zero_inv _ _ _ _ Hzero Hn) as Hf.
+           assert (holds r p = true) by (apply holds_true; eauto). congruence.
       * intros i' j' r' H1 H2. unfold upd in H1, H2.
         destruct (N.eqb_spec i' i); [discriminate|]. destruct (N.eqb_spec j' i); [discriminate|]. eapply i_inj0; eauto.
       * intros i' r' Htab'. unfold upd in Htab'. destruct (N.eqb_spec i' i) as [->|N1]; [discriminate|].
         assert (r' <> r) by (intros ->; apply N1; eapply i_inj0; eauto).
         rewrite upd_other by assumption. rewrite Hother by assumption. eapply i_cnt0; eauto.
       * constructor; [|exact i_pool_nodup0]. intros Hin. eapply i_pool_free0; eauto.
-      * intros x i' Hin Htab'. unfold upd in Htab'. destruct (N.eqb_spec i' i) as [E|N1]; [discriminate|].
+      * intros y i' Hin Htab'. unfold upd in Htab'. destruct (N.eqb_spec i' i) as [E|N1]; [discriminate|].
         destruct Hin as [<-|Hin]; [apply N1; eapply i_inj0; eauto|eapply i_pool_free0; eauto].
       * intros i' r' Htab'. unfold upd in Htab'. destruct (N.eqb_spec i' i); [discriminate|]. eapply i_next_tab0; eauto.
-      * intros x [<-|Hin]; [eapply i_next_tab0; eauto|eapply i_next_pool0; eauto].
-      * intros t' i' r' Hn. destruct (nth_set_cases _ _ _ _ _ _ Ht Hn) as [[-> Hbad]|[Hne Hold]]; [discriminate|].
-        eapply i_nodec0; eauto.
-      * intros t1 t2 i1 i2 r' w1 w2 Hne H1 H2.
-        destruct (nth_set_cases _ _ _ _ _ _ Ht H1) as [[-> E1]|[Hn1 O1]]; [discriminate|].
-        destruct (nth_set_cases _ _ _ _ _ _ Ht H2) as [[-> E2]|[Hn2 O2]]; [discriminate|].
-        apply (i_rw0 t1 t2 i1 i2 r' w1 w2 Hne O1 O2).
+      * intros y [<-|Hin]; [eapply i_next_tab0; eauto|eapply i_next_pool0; eauto].
+      * eapply thr_nodec; eauto. apply Hq.
+      * eapply thr_rw; eauto. intros. apply quiet_not_in. exact Hq.
     + (* others still use the entry *)
-      destruct Hi. constructor; cbn [s_thr s_table s_pool s_cnt s_next]; eauto.
-      * intros t' p i' r' Hn Hh. destruct (nth_set_cases _ _ _ _ _ _ Ht Hn) as [[-> ->]|[Hne Hold]]; [discriminate|].
-        eapply i_hold0; eauto.
+      pose proof Hi as Hi'. destruct Hi. constructor; cbn [s_thr s_table s_pool s_cnt s_next]; eauto.
+      * intros t' p i' r' Hn Hh. destruct (nth_set_cases _ _ _ _ _ _ Ht Hn) as [[-> ->]|[Hne Hold]].
+        -- destruct Hq as [Hq _]. congruence.
+        -- eapply i_hold0; eauto.
       * intros i' r' Htab'. destruct (N.eqb_spec r' r) as [->|Hne].
         -- rewrite upd_same. lia.
         -- rewrite upd_other by exact Hne. rewrite Hother by exact Hne. eapply i_cnt0; eauto.
-      * intros t' i' r' Hn. destruct (nth_set_cases _ _ _ _ _ _ Ht Hn) as [[-> Hbad]|[Hne Hold]]; [discriminate|].
-        eapply i_nodec0; eauto.
-      * intros t1 t2 i1 i2 r' w1 w2 Hne H1 H2.
-        destruct (nth_set_cases _ _ _ _ _ _ Ht H1) as [[-> E1]|[Hn1 O1]]; [discriminate|].
-        destruct (nth_set_cases _ _ _ _ _ _ Ht H2) as [[-> E2]|[Hn2 O2]]; [discriminate|].
-        apply (i_rw0 t1 t2 i1 i2 r' w1 w2 Hne O1 O2).
+      * eapply thr_nodec; eauto. apply Hq.
+      * eapply thr_rw; eauto. intros. apply quiet_not_in. exact Hq.
   - exfalso. eapply (i_nodec s Hi); eauto.
 Qed.
 
-Lemma inv_run : forall sched s, inv s -> inv (run true true s sched).
+Lemma inv_run : forall sched s, inv s -> inv (run true true true s sched).
 Proof.
   induction sched as [|m t IH]; intros s Hi; [exact Hi|]. cbn [run fold_left]. apply IH. apply inv_step. exact Hi.
 Qed.
 
 Lemma inv_exclusive : forall s, inv s -> exclusive s.
 Proof.
-  intros s Hi t1 t2 i r1 r2 w1 w2 Hne H1 H2.
+  intros s Hi t1 t2 i r1 r2 w1 w2 Hne b1 b2 H1 H2.
   pose proof (i_hold s Hi _ _ i r1 H1 eq_refl) as E1. pose proof (i_hold s Hi _ _ i r2 H2 eq_refl) as E2.
   rewrite E1 in E2. inversion E2; subst r2. eapply (i_rw s Hi); eauto.
 Qed.
 
-(* every schedule of any number of goroutines over any message IDs *)
-Lemma exclusive_fixed : forall n sched, exclusive (run true true (init n) sched).
+(* every schedule of any number of goroutines over any message IDs, single operations and Delete batches *)
+Lemma exclusive_fixed : forall n sched, exclusive (run true true true (init n) sched).
 Proof. intros. apply inv_exclusive. apply inv_run. apply inv_init. Qed.
 
 (* ---------- the old release protocol: a writer is not alone ---------- *)
 (* goroutines 0..3, message 7.  0: Set, leaves, counter 1->0, waits for w.lock.  1: Get (counter 0->1), leaves, 1->0, takes
    w.lock, removes the entry, pools object 0.  2: Set creates a new entry (object 1) and is inside.  0: takes w.lock, sees
    0, removes the entry of goroutine 2 and pools object 0 again.  3: Get creates another entry (object 2) and is inside. *)
+Definition go (t : nat) : move := mkM t 0 false 0 [].
 Definition old_witness : list move :=
-  [mkM 0 7 true 9; mkM 0 0 false 0; mkM 0 0 false 0; mkM 0 0 false 0;
-   mkM 1 7 false 9; mkM 1 0 false 0; mkM 1 0 false 0; mkM 1 0 false 0; mkM 1 0 false 0;
-   mkM 2 7 true 9; mkM 2 0 false 0;
-   mkM 0 0 false 0;
-   mkM 3 7 false 9; mkM 3 0 false 0].
+  [mkM 0 7 true 9 []; go 0; go 0; go 0;
+   mkM 1 7 false 9 []; go 1; go 1; go 1; go 1;
+   mkM 2 7 true 9 []; go 2;
+   go 0;
+   mkM 3 7 false 9 []; go 3].
 
 Lemma old_release_not_exclusive :
-  exists n sched, ~ exclusive (run false true (init n) sched).
+  exists n sched, ~ exclusive (run false true true (init n) sched).
 Proof.
   exists 4%nat, old_witness. intros H.
-  destruct (H 2%nat 3%nat 7%N 1%N 2%N true false ltac:(discriminate)) as [Hbad _]; [vm_compute; reflexivity..|discriminate].
+  destruct (H 2%nat 3%nat 7%N 1%N 2%N true false ltac:(discriminate) (7%N, []) (7%N, []))
+    as [Hbad _]; [vm_compute; reflexivity..|discriminate].
 Qed.
 
 Lemma old_release_double_put :
-  s_pool (run false true (init 4) old_witness) = [0%N; 0%N].
+  s_pool (run false true true (init 4) old_witness) = [0%N; 0%N].
 Proof. vm_compute. reflexivity. Qed.
 
 (* ---------- without `v.counter = 1` for a pooled object ---------- *)
@@ -338,16 +386,36 @@ Proof. vm_compute. reflexivity. Qed.
    inside.  2: acquires the entry (counter 1), waits.  1 leaves and releases: 1-1 = 0, entry removed although 2 holds it.
    2 enters (object 0).  3: Get creates a new entry (object 1) and is inside. *)
 Definition noreset_witness : list move :=
-  [mkM 0 7 true 9; mkM 0 0 false 0; mkM 0 0 false 0; mkM 0 0 false 0;
-   mkM 1 7 true 0; mkM 1 0 false 0;
-   mkM 2 7 true 9;
-   mkM 1 0 false 0; mkM 1 0 false 0;
-   mkM 2 0 false 0;
-   mkM 3 7 false 9; mkM 3 0 false 0].
+  [mkM 0 7 true 9 []; go 0; go 0; go 0;
+   mkM 1 7 true 0 []; go 1;
+   mkM 2 7 true 9 [];
+   go 1; go 1;
+   go 2;
+   mkM 3 7 false 9 []; go 3].
 
 Lemma noreset_not_exclusive :
-  exists n sched, ~ exclusive (run true false (init n) sched).
+  exists n sched, ~ exclusive (run true false true (init n) sched).
 Proof.
   exists 4%nat, noreset_witness. intros H.
-  destruct (H 2%nat 3%nat 7%N 0%N 1%N true false ltac:(discriminate)) as [Hbad _]; [vm_compute; reflexivity..|discriminate].
+  destruct (H 2%nat 3%nat 7%N 0%N 1%N true false ltac:(discriminate) (7%N, []) (7%N, []))
+    as [Hbad _]; [vm_compute; reflexivity..|discriminate].
+Qed.
+
+(* ---------- Delete(ids...) releasing every lock object under the FIRST ID of the batch ---------- *)
+(* messages 7 and 8.  0: Delete(7, 8): 7 is done (entry removed, object 0 pooled), is inside deleting 8 (object 1).
+   1: Set(7) creates a new entry (object 2) and is inside.  0: leaves and releases object 1 under key 7: counter 0, so the
+   entry of goroutine 1 is removed.  2: Get(7) creates another entry (object 3) and is inside together with the writer. *)
+Definition wrongkey_witness : list move :=
+  [mkM 0 7 true 9 [8%N]; go 0; go 0; go 0;
+   mkM 0 0 false 9 []; go 0;
+   mkM 1 7 true 9 []; go 1;
+   go 0; go 0;
+   mkM 2 7 false 9 []; go 2].
+
+Lemma wrongkey_not_exclusive :
+  exists n sched, ~ exclusive (run true true false (init n) sched).
+Proof.
+  exists 3%nat, wrongkey_witness. intros H.
+  destruct (H 1%nat 2%nat 7%N 2%N 3%N true false ltac:(discriminate) (7%N, []) (7%N, []))
+    as [Hbad _]; [vm_compute; reflexivity..|discriminate].
 Qed.
